@@ -60,6 +60,30 @@ MultiKeyVerdict(ev) ==
   ELSE IF \E n \in DOMAIN ev.views : ev.views[n].dbsize # cnt THEN "DBSIZE on a node differs from the number of keys it serves"
   ELSE "ok"
 
+(* the simulator's cluster (multi_node.rs) after its network healed and everything was delivered or made up for by   *)
+(* anti-entropy: per key, the write with the greatest (time, replica) stamp among those the nodes recorded is held *)
+(* and served by every responsible node (Converged + WinnerIsGreatestStamp); at every client step the accepting     *)
+(* node serves what its replication state says (ServedIsState)                                                      *)
+StampLe(u, w) == u.t < w.t \/ (u.t = w.t /\ u.r <= w.r)
+SimClusterVerdict(ev) ==
+  LET W(k) == {i \in DOMAIN ev.writes : ev.writes[i].k = k}
+      Win(k) == ev.writes[CHOOSE i \in W(k) : \A j \in W(k) : StampLe(ev.writes[j], ev.writes[i])]
+      Want(k) == IF Win(k).v = "<del>" THEN NIL ELSE Win(k).v
+  IN
+  IF \E i \in DOMAIN ev.steps : ev.steps[i].get # ev.steps[i].rsv
+    THEN "a node of the simulated cluster serves a value that its replication state does not hold (a write was recorded although it was not applied, or applied and not recorded)"
+  ELSE IF \E i, j \in DOMAIN ev.writes : i # j /\ ev.writes[i].t = ev.writes[j].t /\ ev.writes[i].r = ev.writes[j].r /\ ev.writes[i].k = ev.writes[j].k
+    THEN "two writes of one key carry the same stamp"
+  ELSE IF ev.queue_left # 0 THEN "the simulated network never delivers a queued message although every partition healed"
+  ELSE IF \E k \in 1..ev.nk : W(k) # {} /\ \E x \in DOMAIN ev.resp[k] : LET n == ev.resp[k][x] IN
+            ev.views[n].rs[k] # <<Win(k).t, Win(k).r, Win(k).v>>
+    THEN "a responsible node of the simulated cluster does not hold the write with the greatest stamp although every update was delivered (gossip, routing or anti-entropy of the simulator)"
+  ELSE IF \E k \in 1..ev.nk : W(k) # {} /\ \E x \in DOMAIN ev.resp[k] : ev.views[ev.resp[k][x]].gets[k] # Want(k)
+    THEN "a responsible node of the simulated cluster serves something else than the write with the greatest stamp although every update was delivered"
+  ELSE IF \E k \in 1..ev.nk : W(k) = {} /\ \E n \in DOMAIN ev.views : ev.views[n].gets[k] # NIL
+    THEN "a node serves a key nobody wrote"
+  ELSE "ok"
+
 TraceInit == Init /\ l = 1 /\ run = 0 /\ kinds = {}
 
 Skip == UNCHANGED <<vars, run, kinds>>
@@ -93,6 +117,9 @@ Step(ev) ==
          ELSE IF \E i \in DOMAIN ev.views : ev.views[i].rs # ev.views[1].rs
          THEN Verdict("nodes of a cluster hold different replication states although every update was delivered")
          ELSE TRUE)
+  [] ev.a = "simcluster" ->
+     /\ Skip
+     /\ LET v == SimClusterVerdict(ev) IN IF v # "ok" THEN Verdict(v) ELSE TRUE
   [] ev.a = "ae" ->
      IF "skipped" \in DOMAIN ev THEN Skip
      ELSE IF IsNone(rs[ev.from]) THEN Skip /\ Verdict("anti-entropy from a node the specification holds empty")
